@@ -5,3 +5,5 @@ mixed co_z(object o) { return o->zz_absent(); }
 // a call_other issued at a chosen call depth (the harness picks n so that the callee's frame is the one that does not fit)
 mixed deep_f(int n, object o) { if (n > 0) return deep_f(n - 1, o); return o->f(); }
 mixed deep_g(int n, object o) { if (n > 0) return deep_g(n - 1, o); return o->g(); }
+// evaluate a function pointer handed over by another object (code running at offset 0 of another object)
+mixed ev(function p, int how) { if (!how) return evaluate(p, "e"); return map_array(({ "e" }), p)[0]; }
